@@ -5,3 +5,5 @@ import OxyModel.Props.C20
 #print axioms C20.C20_decisive
 #print axioms C20.C20_status_table
 #print axioms C20.C20_response_limit
+#print axioms C20.C20_abort_restores
+#print axioms C20.C20_abort_state
